@@ -11,8 +11,9 @@ LEVEL = "exploration"
 ENGINE = "spec"
 TECHNIQUE = "runtime monitor: generated type trees/values through the real codecs, normalising comparer as oracle"
 LEVEL_TEXT = ("The real to_binary/from_binary of every CQL type are run on tens of thousands (quick) to ~1M (thorough) generated "
-              "nested type trees and boundary-heavy values for protocol versions 1-6 and DSE v1/v2; each round trip is judged by an "
-              "input-independent comparer. Held-on-observed, not a proof over all values.")
+              "nested type trees and boundary-heavy values for protocol versions 1-6 and DSE v1/v2, plus per version collections, tuple/UDT "
+              "fields and vector elements whose count or byte size sits on a length-field boundary (127/128 ... 32767/32768, 65535, 65536); "
+              "each round trip is judged by an input-independent comparer. Held-on-observed, not a proof over all values.")
 LEVEL_NOTE = ("Trusted base: generator/normaliser in props/_cqlgen.py (set -> multiset compare, map -> ordered pairs, UDT -> field tuple, "
               "NaN==NaN). v1/v2 top-level collections cannot carry null elements (uint16 lengths) and are generated without them; "
               "vectors are generated for protocol >= 3 only.")
@@ -82,6 +83,28 @@ def _same_shape(a, b):
     return True
 
 
+def _flat_roundtrip_equal(dt, t, v, pv, rng):
+    """Round trip of a top-level list / set / map of int or bool scalars, compared with plain equality plus exact element types.
+    False on any difference or exception."""
+    from props import _cqlgen as G
+    try:
+        return G.flat_equal(t, v, dt.from_binary(dt.to_binary(G.flat_input(rng, t, v), pv), pv))
+    except Exception:
+        return False
+
+
+def _short(x):
+    r = repr(x)
+    return r if len(r) <= 160 else r[:120] + "...(%d chars)" % len(r)
+
+
+def _len(x):
+    try:
+        return len(x)
+    except TypeError:
+        return None
+
+
 def run(ctx):
     from props import _cqlgen as G
     from spec import cqlcodec as S
@@ -89,28 +112,26 @@ def run(ctx):
 
     rng = ctx.rng
     ctx.rule = ("seeded type trees (depth<=4, width<=4; all scalars, list/set/map/tuple/UDT/vector/frozen) x boundary-pool+random values with "
-                "nulls at depth 1-2 and empty collections x protocol versions {1..6,0x41,0x42}; a case is (type, value, version); "
-                "distinct by canonical repr; non-trivial = nested type (depth >= 1)")
-    n = ctx.scale(120000, 1600000)
-    budget = 45 if ctx.quick else 420
-    ok = 0
-    for i in range(n):
-        if i % 256 == 0 and ctx.time_left(budget) < 0:
-            ctx.note("stopped by time budget after %d cases" % i)
-            break
-        pv = rng.choice(PVS)
-        depth = rng.choice([0, 1, 1, 2, 2, 3, 4])
-        t = G.gen_type(rng, depth, pv)
-        v = G.gen_value(rng, t, pv)
+                "nulls at depth 1-2 and empty collections x protocol versions {1..6,0x41,0x42}; plus, per protocol version, collections / "
+                "tuple+UDT fields / vectors whose element count or element byte size sits on a length-field boundary (127/128, 255/256, "
+                "32767/32768, 65535, 65536 for v3+); a case is (type, value, version); distinct by canonical repr; non-trivial = nested "
+                "type (depth >= 1)")
+    ok = [0]
+
+    def one(t, v, pv, via_desc, sample_p=0.02, flat=False):
+        """One monitored round trip; True when it came back equal."""
         nested = G.is_nested(t)
-        ctx.case(repr((S.cql_name(t), G.canon_key(t, v), pv)), nontrivial=nested)
-        ctx.count("nested_cases" if nested else "scalar_cases")
-        via_desc = rng.random() < 0.4
         try:
             dt = G.driver_type(t, via_descriptor=via_desc)
         except Exception as e:
             ctx.violation("type-construction-raises", "building %s raised %s: %s" % (S.cql_name(t), type(e).__name__, e), G.describe(t, v))
-            continue
+            return False
+        if flat and _flat_roundtrip_equal(dt, t, v, pv, rng):
+            # tens of thousands of int/bool elements: compared directly (same oracle, without the per-element normaliser); anything
+            # but an exact match is re-run through the general path below, which classifies it and builds the witness
+            ok[0] += 1
+            ctx.count("bytes_encoded", 2 * len(v))
+            return True
         dv = G.to_driver(rng, t, v)
         exc = back = None
         try:
@@ -123,10 +144,10 @@ def run(ctx):
         except Exception as e:
             exc = e
         if exc is None and G.canon_key(t, v) == G.canon_key(t, back):
-            ok += 1
-            if nested and len(ctx.samples) < 6 and rng.random() < 0.02:
+            ok[0] += 1
+            if nested and len(ctx.samples) < 6 and rng.random() < sample_p:
                 ctx.sample({"type": S.cql_name(t), "pv": pv, "value": repr(v)[:200], "bytes": b})
-            continue
+            return True
         if exc is not None:
             mech = "roundtrip-raises"
             if isinstance(exc, G.MapItemsKeyError) and exc.reencoding_differs and G.contains_kind(exc.key_type, ('set', 'tuple', 'udt')):
@@ -134,12 +155,48 @@ def run(ctx):
             what = "round trip of %s at v%d raised %s: %s" % (S.cql_name(t), pv, type(exc).__name__, str(exc)[:200])
         else:
             mech = classify(t, v, back, None) or "roundtrip-value-differs"
-            what = "round trip of %s at v%d: %r came back as %r" % (S.cql_name(t), pv, v, back)
+            what = "round trip of %s at v%d: %r came back as %r" % (S.cql_name(t)[:120], pv, _short(v), _short(back))
+            if isinstance(v, list) and _len(v) != _len(back):
+                what += " [%s elements sent, %s came back]" % (_len(v), _len(back))
             what = what[:600]
         ctx.violation(mech, what, {"type": S.cql_name(t), "descriptor": G.cass_descriptor(t), "pv": pv, "value": repr(v)[:400],
-                                   "input": repr(dv)[:400], "back": repr(back)[:400], "via_descriptor": via_desc})
+                                   "input": repr(dv)[:400], "back": repr(back)[:400], "via_descriptor": via_desc,
+                                   "len_value": _len(v), "len_back": _len(back)})
+        return False
+
+    # -- length-field boundaries, every protocol version (cheap element types; run first so a time-budget stop cannot skip them)
+    for pv in PVS:
+        # v1/v2 frame top-level collections with a [short]: every big count for every kind on every run; v3+ (int32): a sample
+        for cls, label, bound, t, v in G.boundary_cases(rng, pv, big_counts='v1v2' if pv < 3 else 1):
+            ctx.case(repr(("boundary", label, pv)), nontrivial=True)
+            ctx.count("boundary_%s_cases" % cls)
+            if pv < 3 and bound >= 32768 and cls in ('count', 'elemsize'):
+                ctx.count("boundary_v1v2_%s_ge_32768" % cls)
+            if one(t, v, pv, rng.random() < 0.3, sample_p=0.0, flat=(cls == 'count' and bound >= 32767)):
+                ctx.count("boundary_roundtrips_equal")
+
+    n = ctx.scale(120000, 1600000)
+    budget = 45 if ctx.quick else 420
+    for i in range(n):
+        if i % 256 == 0 and ctx.time_left(budget) < 0:
+            ctx.note("stopped by time budget after %d cases" % i)
+            break
+        pv = rng.choice(PVS)
+        depth = rng.choice([0, 1, 1, 2, 2, 3, 4])
+        t = G.gen_type(rng, depth, pv)
+        v = G.gen_value(rng, t, pv)
+        nested = G.is_nested(t)
+        ctx.case(repr((S.cql_name(t), G.canon_key(t, v), pv)), nontrivial=nested)
+        ctx.count("nested_cases" if nested else "scalar_cases")
+        one(t, v, pv, rng.random() < 0.4)
+    ok = ok[0]
     ctx.count("roundtrips_equal", ok)
     ctx.floor_distinct = 1500 if ctx.quick else 50000
-    ctx.floor_counters = {"roundtrips_equal": 3000, "nested_cases": 1500}
+    ctx.floor_counters = {"roundtrips_equal": 3000, "nested_cases": 1500,
+                          # length-field boundary classes (per process: 8 versions x (12 small + >=2 big counts, 28+ element sizes, 8 fields,
+                          # 14 vectors for v3+); v1/v2: 2 versions x (3 kinds at 32768 + one at 65535), 2 x 4 positions x 2 sizes >= 32768)
+                          "boundary_count_cases": 100, "boundary_elemsize_cases": 220, "boundary_field_cases": 60,
+                          "boundary_vector_cases": 80, "boundary_v1v2_count_ge_32768": 8, "boundary_v1v2_elemsize_ge_32768": 16,
+                          "boundary_roundtrips_equal": 450}
     n_self = S.selfcheck()
     ctx.count("spec_selfcheck_cases", n_self)
